@@ -15,7 +15,10 @@ for p in $props; do
     set -- $cfg
     for seed in 1 77; do
       out=.cache/selftest/$p-$1-$2-$seed.log
-      VERIF_SEED=$seed VERIF_WORKERS=$1 GOMAXPROCS=$2 VERIF_QUICK_RUNS=${VERIF_SELFTEST_RUNS:-120} ./check.sh $p quick > $out 2>&1
+      runs=${VERIF_SELFTEST_RUNS:-120}
+      # (C20 with one worker must fit into the quick tier's time budget, or the batch is cut short and its fingerprint differs for that reason alone)
+      [ $p = C20 ] && runs=${VERIF_SELFTEST_RUNS:-40}
+      VERIF_SEED=$seed VERIF_WORKERS=$1 GOMAXPROCS=$2 VERIF_QUICK_RUNS=$runs ./check.sh $p quick > $out 2>&1
       rc=$?
       fp=$(python3 -c "import json;print(json.load(open('.cache/selftest/out/evidence/$p.json'))['coverage'].get('batch_fingerprint'))")
       key="$p seed=$seed"
